@@ -12,11 +12,13 @@ from vlib.deductive import run_contracts
 LEVEL = "proof"
 
 
-def _rand_dgm(rng, n):
+def _rand_dgm(rng, n, tie=None):
+    """tie: None, 'birth' (all births equal), 'pers' (all persistences equal), 'point' (a single point)"""
     out = []
-    for _ in range(n):
-        b = round(rng.uniform(0, 6), 2)
-        out.append([b, round(b + rng.uniform(0.5, 5), 2)])
+    b0, p0 = float(rng.randint(0, 5)), float(rng.randint(1, 4))
+    for _ in range(1 if tie == "point" else n):
+        b = b0 if tie == "birth" else round(rng.uniform(0, 6), 2)
+        out.append([b, (b + p0) if tie == "pers" else round(b + rng.uniform(0.5, 5), 2)])
     return np.array(out)
 
 
@@ -39,24 +41,30 @@ def _standin(rep, tier, seed, only_search=False):
             seqs = [rng.choice(["fit", "transform", "fit_transform", "fit"]) for _ in range(rng.randint(2, 5))]
             last_fit = None
             hist = []
+            # the same coordinate convention throughout one history, given by keyword, positionally or left to the default
+            skew = rng.choice([True, True, False])
+            how = rng.choice(["kw", "pos"]) if not skew else rng.choice(["kw", "pos", "default"])
+            sk_a, sk_k = ((skew,), {}) if how == "pos" else (((), {"skew": skew}) if how == "kw" else ((), {}))
             for op in seqs:
                 # refits on data with the same number of pixels but a shifted range are the delicate case
                 if last_fit is not None and rng.random() < 0.5:
                     sh = rng.choice([ps * 4, ps * 10, 10.0])
                     X = [d + [sh, sh] for d in last_fit] if rng.random() < 0.5 else [d + [0.0, sh] for d in last_fit]
                 else:
-                    X = [_rand_dgm(rng, rng.randint(2, 4)) for _ in range(rng.randint(1, 2))]
+                    # data tied along an axis (H0-like diagrams: equal births; equal persistences; one point) is data like any other
+                    tie = rng.choice([None, None, None, "birth", "pers", "point"])
+                    X = [_rand_dgm(rng, rng.randint(2, 4), tie) for _ in range(1 if tie else rng.randint(1, 2))]
                 Xc = copy.deepcopy(X)
-                hist.append((op, [x.tolist() for x in X]))
+                hist.append((op, [x.tolist() for x in X], {"skew": skew, "passed": how}))
                 if op == "fit":
-                    pi.fit(X)
+                    pi.fit(X, *sk_a, **sk_k)
                     last_fit = Xc
                 elif op == "fit_transform":
-                    out = pi.fit_transform(X)
+                    out = pi.fit_transform(X, *sk_a, **sk_k)
                     last_fit = Xc
                     ref = PersistenceImager(pixel_size=ps)
-                    ref.fit(Xc)
-                    want = ref.transform(Xc)
+                    ref.fit(Xc, skew=skew)
+                    want = ref.transform(Xc, skew=skew)
                     evals += 1
                     if not (len(out) == len(want) and all(np.array_equal(a, b) for a, b in zip(out, want))):
                         rep.violation("fit_transform differs from fit followed by transform on a fresh imager after history %s" % [h[0] for h in hist], "imager:fit_transform-vs-fit-transform", {"input": {"pixel_size": ps, "history": hist}})
@@ -64,19 +72,19 @@ def _standin(rep, tier, seed, only_search=False):
                     if last_fit is None:
                         continue
                     before = _img_state(pi)
-                    o1 = pi.transform(X)
-                    o2 = pi.transform(X)
+                    o1 = pi.transform(X, *sk_a, **sk_k)
+                    o2 = pi.transform(X, *sk_a, **sk_k)
                     evals += 1
                     if _img_state(pi) != before:
                         rep.violation("imager transform altered the fitted state", "imager:transform-mutates-state", {"input": {"pixel_size": ps, "history": hist}})
                     if not all(np.array_equal(a, b) for a, b in zip(o1, o2)):
                         rep.violation("imager transform not repeatable", "imager:transform-not-repeatable", {"input": {"pixel_size": ps, "history": hist}})
-                    single = [pi.transform(x) for x in X]
+                    single = [pi.transform(x, skew=skew) for x in X]
                     if not all(np.array_equal(a, b) for a, b in zip(o1, single)):
                         rep.violation("imager transform of a collection is not element by element, in order", "imager:collection-order", {"input": {"pixel_size": ps, "history": hist}})
                 if op in ("fit", "fit_transform"):
                     ref = PersistenceImager(pixel_size=ps)
-                    ref.fit(last_fit)
+                    ref.fit(last_fit, skew=skew)
                     evals += 1
                     distinct.add(("imager", tuple(h[0] for h in hist)))
                     if _img_state(pi) != _img_state(ref):
@@ -134,7 +142,7 @@ def _standin(rep, tier, seed, only_search=False):
             if len(samples) < 2:
                 samples.append({"imager_ops": seqs})
     if not only_search:
-        rep.bounded("transformer call sequences", "%d random sequences of fit / transform / fit_transform per transformer, with refits on shifted data of equal pixel count, 4 choices of user-fixed grid ends, flatten on/off" % n,
+        rep.bounded("transformer call sequences", "%d random sequences of fit / transform / fit_transform per transformer (skew on/off, by keyword / position / default), with refits on shifted data of equal pixel count and on data tied along an axis, 4 choices of user-fixed grid ends, flatten on/off" % n,
                     evals, len(distinct), "after every fit the learned state must equal that of a fresh transformer (same user-fixed parameters) fitted on the same data; transform repeatable, state-preserving, element-wise in order; fit_transform == fit;transform",
                     samples)
 
